@@ -12,8 +12,14 @@ use std::{
 pub struct MultiType(pub(crate) Arc<HashSet<Type>>);
 
 impl MultiType {
+    #[cfg(not(feature = "verif"))]
     pub fn iter(&self) -> Iter<'_, Type> {
         self.0.iter()
+    }
+
+    #[cfg(feature = "verif")]
+    pub fn iter(&self) -> std::vec::IntoIter<&Type> {
+        crate::verif::ordered_set(&self.0).into_iter()
     }
 }
 
@@ -29,6 +35,18 @@ impl<const N: usize> From<[Type; N]> for MultiType {
     }
 }
 
+#[cfg(feature = "verif")]
+impl<'a> IntoIterator for &'a MultiType {
+    type Item = &'a Type;
+
+    type IntoIter = std::vec::IntoIter<&'a Type>;
+
+    fn into_iter(self) -> Self::IntoIter {
+        crate::verif::ordered_set(&self.0).into_iter()
+    }
+}
+
+#[cfg(not(feature = "verif"))]
 impl<'a> IntoIterator for &'a MultiType {
     type Item = &'a Type;
 
